@@ -259,6 +259,15 @@ func (g *gen) freshHeaders(n int, valid bool) []hHeader {
 func (g *gen) tx(t *hTx) *pbuf { return t.build(true) }
 
 // hostileTx builds a syntactically valid transaction with odd content.
+// fillerTx: a well-formed transaction of ~200 bytes that spends nothing the node knows
+func (g *gen) fillerTx() *hTx {
+	t := &hTx{Version: 2, In: []hTxIn{{Prev: g.someHash(), Vout: uint32(g.r.Intn(4)), Sequence: 0xfffffffe, Script: g.randScript(20 + g.r.Intn(30))}}}
+	for i := 2 + g.r.Intn(2); i > 0; i-- {
+		t.Out = append(t.Out, hTxOut{Value: uint64(1000 + g.r.Intn(100000)), Script: g.randScript(25 + g.r.Intn(40))})
+	}
+	return t
+}
+
 func (g *gen) oddTx() *hTx {
 	t := &hTx{Version: []uint32{1, 2, 0, 0xffffffff}[g.r.Intn(4)], LockTime: []uint32{0, 1, 499999999, 500000000, 0xffffffff}[g.r.Intn(5)]}
 	nin := []int{0, 1, 1, 1, 2, 3, 20}[g.r.Intn(7)]
@@ -995,26 +1004,51 @@ func (g *gen) blockFlow(s *script) {
 		if r.Intn(2) == 0 {
 			txs = append(txs, h.spendTx(2000, 0))
 		}
+		// every third body is bulky (40-150 well-formed filler transactions, 8-30 kB): the block parser hands the
+		// transactions to hashing goroutines in packs of 4 kB, so what happens when byte 20,000 is malformed differs
+		// from what happens when byte 200 is
+		bulky := r.Intn(3) == 0
+		if bulky {
+			for i := 40 + r.Intn(111); i > 0; i-- {
+				txs = append(txs, g.fillerTx())
+			}
+		}
 		b := h.newTipBlock(txs)
-		if r.Intn(2) == 0 {
+		if r.Intn(2) == 0 || bulky {
 			add(wireMsg{Cmd: "headers", Pl: g.headers([]hHeader{b.Hdr}).b, Tag: "flow/announce"})
 		}
 		if r.Intn(3) == 0 {
 			add(wireMsg{Cmd: "inv", Pl: g.invList([]invEnt{{invBlock, b.Hash}}).b, Tag: "flow/announce"})
 		}
 		p := g.block(b)
-		switch r.Intn(6) {
+		k := r.Intn(6)
+		if bulky {
+			if k >= 4 && r.Intn(4) != 0 {
+				k = r.Intn(4) // mostly mutated: a bulky body spends nothing real and would only get the peer dropped
+			}
+			if k == 2 {
+				// cut somewhere in the second half, so that whole packs parse before the parser runs out of bytes
+				cut := len(p.b)/2 + r.Intn(len(p.b)/2)
+				add(wireMsg{Cmd: "block", Pl: append([]byte(nil), p.b[:cut]...), Tag: "flow/bulky-truncated-in-second-half"})
+				continue
+			}
+		}
+		bp := ""
+		if bulky {
+			bp = "bulky-"
+		}
+		switch k {
 		case 0, 1:
 			pl, tag := g.mutCount(p)
-			add(wireMsg{Cmd: "block", Pl: pl, Tag: "flow/" + tag})
+			add(wireMsg{Cmd: "block", Pl: pl, Tag: "flow/" + bp + tag})
 		case 2:
 			pl, tag := g.mutTrunc(p)
-			add(wireMsg{Cmd: "block", Pl: pl, Tag: "flow/" + tag})
+			add(wireMsg{Cmd: "block", Pl: pl, Tag: "flow/" + bp + tag})
 		case 3:
 			pl, tag := g.mutBytes(p)
-			add(wireMsg{Cmd: "block", Pl: pl, Tag: "flow/" + tag})
+			add(wireMsg{Cmd: "block", Pl: pl, Tag: "flow/" + bp + tag})
 		default:
-			add(wireMsg{Cmd: "block", Pl: p.b, Tag: "flow/wellformed"})
+			add(wireMsg{Cmd: "block", Pl: p.b, Tag: "flow/" + bp + "wellformed"})
 		}
 		if r.Intn(2) == 0 {
 			add(g.hostileMsg([]string{"getdata", "getheaders", "getblocks", "block", "headers"}[r.Intn(5)]))
